@@ -623,3 +623,110 @@ func c13JudgeTempo(r *h.Result, rng *h.Rng, n int) error {
 	}
 	return nil
 }
+
+// ---- model-tempo-legacy: trace by id, legacy tag names / tag values
+
+func c13tCapture(cluster bool, run func(svc rmodel.ITempoService) error) (string, error) {
+	c20Setup()
+	var mtx sync.Mutex
+	var sqls []string
+	reg := fakes.NewDBRegistry(&fakes.CallLog{}, func(s string) ([]string, [][]driver.Value, error) {
+		mtx.Lock()
+		sqls = append(sqls, s)
+		mtx.Unlock()
+		return nil, nil, nil
+	})
+	if cluster {
+		reg.M.Config.ClusterName = "c1"
+	}
+	svc := rservice.NewTempoService(rmodel.ServiceData{Session: reg})
+	if err := run(svc); err != nil {
+		return "", err
+	}
+	mtx.Lock()
+	defer mtx.Unlock()
+	if len(sqls) != 1 {
+		return "", fmt.Errorf("expected one statement, got %d", len(sqls))
+	}
+	return sqls[0], nil
+}
+
+func c13ModelTempoLegacy(r *h.Result, rng *h.Rng, n int) error {
+	r.Stream("model-tempo-legacy: TempoService.Query (trace by id, start/end given or 0) / Tags / Values → statement text vs renderSel of Tempo.queryRequest / tagsRequest / valuesRequest (byte-equal) + confined of the model's trace-by-id plan when both ends are given")
+	var ops, impl []string
+	var cases []any
+	ctx := context.Background()
+	for i := 0; i < n; i++ {
+		cluster := rng.Chance(40)
+		switch i % 4 {
+		case 0, 1:
+			day := int64(19000+rng.Intn(1500)) * 86400
+			start := h.Pick(rng, []int64{0, day + int64(rng.Intn(86400)), day - 5, -3})
+			end := h.Pick(rng, []int64{0, start + int64(rng.Range(1, 100000)), day + 86400})
+			tid := h.Pick(rng, []string{"0123456789abcdef0123456789abcdef", "00", "", "zz'q", fmt.Sprintf("%032x", rng.U64())})
+			stmt, err := c13tCapture(cluster, func(svc rmodel.ITempoService) error {
+				ch, err := svc.Query(ctx, start*1e9, end*1e9, []byte(tid), false)
+				if err == nil {
+					for range ch {
+					}
+				}
+				return err
+			})
+			if err != nil {
+				r.Count("model-tempo-legacy:impl-error")
+				continue
+			}
+			ops = append(ops, fmt.Sprintf("c13tquery %d %d %s %d %s %s", start*1e9, end*1e9, hx(tid), b2i(cluster), hx("tempo_traces"), hx("tempo_traces_dist")))
+			impl = append(impl, h.Hex([]byte(stmt))+" true true")
+			cases = append(cases, map[string]any{"stream": "model-tempo-legacy", "kind": "trace-by-id", "start_s": start, "end_s": end, "trace_id": tid, "cluster": cluster, "sql": stmt})
+			r.Case(fmt.Sprintf("model-tempo-legacy:query:%d:%d:%s:%v", start, end, tid, cluster), start != 0 && end != 0)
+			r.Count(fmt.Sprintf("model-tempo-legacy:trace-by-id:start=%v,end=%v", start != 0, end != 0))
+		case 2:
+			stmt, err := c13tCapture(cluster, func(svc rmodel.ITempoService) error {
+				ch, err := svc.Tags(ctx)
+				if err == nil {
+					for range ch {
+					}
+				}
+				return err
+			})
+			if err != nil {
+				r.Count("model-tempo-legacy:impl-error")
+				continue
+			}
+			kv := "tempo_traces_kv"
+			if cluster {
+				kv = "tempo_traces_kv_dist"
+			}
+			ops = append(ops, "c13ttagsreq "+hx(kv))
+			impl = append(impl, h.Hex([]byte(stmt)))
+			cases = append(cases, map[string]any{"stream": "model-tempo-legacy", "kind": "tags", "cluster": cluster, "sql": stmt})
+			r.Case(fmt.Sprintf("model-tempo-legacy:tags:%v", cluster), true)
+			r.Count("model-tempo-legacy:tags")
+		default:
+			tag := h.Pick(rng, []string{"http.method", "span.http.method", ".x", "resource.service", "resource.s", "span..resource.abcdef", "span.", "it's", "", "resource."})
+			stmt, err := c13tCapture(cluster, func(svc rmodel.ITempoService) error {
+				ch, err := svc.Values(ctx, tag)
+				if err == nil {
+					for range ch {
+					}
+				}
+				return err
+			})
+			if err != nil {
+				r.Count("model-tempo-legacy:impl-error")
+				continue
+			}
+			kv := "tempo_traces_kv"
+			if cluster {
+				kv = "tempo_traces_kv_dist"
+			}
+			ops = append(ops, "c13tvaluesreq "+hx(kv)+" "+hx(tag))
+			impl = append(impl, h.Hex([]byte(stmt)))
+			cases = append(cases, map[string]any{"stream": "model-tempo-legacy", "kind": "values", "tag": tag, "cluster": cluster, "sql": stmt})
+			r.Case(fmt.Sprintf("model-tempo-legacy:values:%s:%v", tag, cluster), true)
+			r.Count("model-tempo-legacy:values")
+		}
+	}
+	return r.Compare("model-tempo-legacy", ops, impl, cases)
+}
